@@ -931,6 +931,16 @@ func runLockedfile(tier string, seed int64, model string, replay string) *corr.R
 	defer os.RemoveAll(scratch)
 
 	var reqs []request
+	if strings.HasPrefix(replay, "real-kernel") {
+		// a finding of the real-kernel supplement: run the supplement again
+		if strings.HasPrefix(replay, "real-kernel dup-release") {
+			dupRelease(res, scratch)
+		} else {
+			realKernel(res, tier, seed, scratch)
+		}
+		res.Evaluations = res.OracleChecked["C06"] + res.OracleChecked["C07"]
+		return res
+	}
 	if replay != "" {
 		reqs = []request{{replay, "replay"}}
 	} else {
